@@ -74,6 +74,46 @@ func runLoadScenario(sc ldScenario) ldResult {
 	s.Policy = sc.Policy
 	s.Script = append([]verifkit.Step{}, sc.Script...)
 	s.Filter = func(id string) bool { return ldPoints[id] }
+	if i := strings.Index(sc.Policy, "+"); i >= 0 {
+		target := map[string]string{"+inflight": "ld.exit", "+atinstall": "ld.beforeInstall"}[sc.Policy[i:]]
+		sc.Policy = sc.Policy[:i]
+		// bias towards the window C09 is about: first let a load get in flight (a goroutine parked inside the loader),
+		// then let the writers run to completion while it is parked, then continue with the base policy
+		// ("+atinstall": the loader has returned and its result is about to be installed)
+		s.Policy = sc.Policy
+		s.Choose = func(parked []*verifkit.G, rnd *rand.Rand) *verifkit.G {
+			if rnd.Intn(10) == 0 {
+				return nil
+			}
+			inLoader := false
+			var ws, others []*verifkit.G
+			for _, g := range parked {
+				if g.At == target {
+					inLoader = true
+					continue
+				}
+				if strings.HasPrefix(g.Name, "w") {
+					ws = append(ws, g)
+				} else {
+					others = append(others, g)
+				}
+			}
+			if !inLoader {
+				if len(others) > 0 {
+					return others[rnd.Intn(len(others))]
+				}
+				return nil
+			}
+			if len(ws) > 0 {
+				return ws[rnd.Intn(len(ws))]
+			}
+			// writers are done (or running maintenance through adopted goroutines): anything but the loader first
+			if len(others) > 0 && rnd.Intn(4) != 0 {
+				return others[rnd.Intn(len(others))]
+			}
+			return nil
+		}
+	}
 	note := func(e ldEvent) {
 		mu.Lock()
 		e.Seq = s.Note(e.T, 0, nil)
